@@ -164,6 +164,18 @@ CHECKS["C08"] = {
     ],
 }
 
+CHECKS["C09"] = {
+    "engine": "simnet",
+    "level": "exploration",
+    "technique": "structured property-based fuzzing (rapid) of the real stream handler over fake inbound streams, plus native go-fuzz on raw frames in the thorough tier; validity-predicate oracle on the bytes read back and on store effects",
+    "level_text": "Generated node states and request sequences (every message type, adversarial field contents, malformed frames) are written to the real handleNewStream over in-memory streams; the oracle parses the bytes read back "
+                  "and checks the protocol bounds, the store effects of ADD_PROVIDER/PUT_VALUE and that the node keeps serving. Exploration: inputs are sampled (structured generator primary, byte-level mutations secondary).",
+    "level_note": "Transport = in-memory pipe with msgio framing exactly as on a libp2p stream; message size limit taken from network.MessageSizeMax; the closer-peer clauses are judged against the node's own routing table and peerstore.",
+    "parts": [
+        {"part": "server", "pkg": ROOT, "test": "TestVerif_C09_Server", "quick": 1500, "thorough": 25000},
+    ],
+}
+
 MANIFEST_HEAD = {
     "version": 1,
     "setup_cmd": "bin/check --setup",
